@@ -21,7 +21,7 @@ def sh(*a, **k):
 
 
 def applies(patch, tree):
-    return sh("patch", "-p1", "-s", "--dry-run", "-d", tree, "-i", patch).returncode == 0
+    return sh("patch", "-p1", "-s", "-F0", "--dry-run", "-d", tree, "-i", patch).returncode == 0
 
 
 def files_of(patch):
@@ -65,7 +65,7 @@ def one(kind, name, write):
     try:
         theirs = os.path.join(tmp, "theirs")
         shutil.copytree(tree_at(base), theirs)
-        sh("patch", "-p1", "-s", "--no-backup-if-mismatch", "-d", theirs, "-i", patch)
+        sh("patch", "-p1", "-s", "-F0", "--no-backup-if-mismatch", "-d", theirs, "-i", patch)
         merged = os.path.join(tmp, "merged")
         shutil.copytree(head, merged)
         conflicts = []
